@@ -95,6 +95,27 @@ def handle (j : Json) : Except String Json := do
         | "bytes" => pure (Val.bytes (← natList j "v"))
         | _ => throw "value_str: kind"
       pure (jstr (valueStr d style v))
+  | "temporal" =>
+      -- Value.__str__ for a date / datetime / time / timedelta given by its fields; also what the model reads back from the REAL text
+      let d ← argDialect j
+      let style ← argStyle j
+      let kind ← argStr j "kind"
+      let f ← natList j "f"
+      let real ← argChars j "real_inner"
+      let (v, back) ← match kind, f with
+        | "date", [y, m, dd] => pure (TVal.date ⟨y, m, dd⟩, toJson ((parseDate real).map (fun x => [x.y, x.m, x.d])))
+        | "time", [h, mi, sec, us] => pure (TVal.time ⟨h, mi, sec, us⟩, toJson ((parseTime real).map (fun t => [t.h, t.mi, t.s, t.us])))
+        | "datetime", [y, m, dd, h, mi, sec, us] =>
+            pure (TVal.datetime ⟨y, m, dd⟩ ⟨h, mi, sec, us⟩, toJson ((parseTimestamp real).map (fun p => [p.1.y, p.1.m, p.1.d, p.2.h, p.2.mi, p.2.s, p.2.us])))
+        | "delta", [secs, us] => pure (TVal.delta ⟨← argInt j "days", secs, us⟩, toJson (parseInterval real))
+        | _, _ => throw "temporal: kind/fields"
+      let txt := match temporalStr d style v with | some t => jstr t | none => Json.null
+      let micros := match v with | .delta td => toJson td.micros | _ => Json.null
+      pure (Json.mkObj [("text", txt), ("inner", jstr (temporalText v)), ("readback", back), ("micros", micros)])
+  | "lex_int" =>
+      match lexInt (← argChars j "text") with
+      | none => pure .null
+      | some (i, rest) => pure (Json.mkObj [("value", toJson i), ("rest", jstr rest)])
   | "mod" => pure (jstr (modSymbol (← argStyle j)))
   | "lex_lit" => pure (jLex (lexLiteral (← argDialect j) (← argChars j "text")))
   | "lex_ident" => pure (jLex (lexQuoted (← argChar j "q") (← argChars j "text")))
